@@ -63,7 +63,8 @@ def run(repo, rep, tier):
                   'and grammar actions')
     r5 = rep.rule('C09.R5', 'token conversions are covered by the token '
                   'regex')
-    r6 = rep.rule('C09.R6', 'per-compile parser state (informational)')
+    r6 = rep.rule('C09.R6', 'per-compile parser state is re-initialised by every '
+                  'entry point or reset in a finally')
     mod = repo.module(MOF)
     mc = repo.cls(MOF, 'MOFCompiler')
     actions = [f for n, f in mod.functions.items()
@@ -419,25 +420,81 @@ def run(repo, rep, tier):
                                     c.lineno, 'building this message raises '
                                     'instead of the intended error: ' + pr)
             r7.functions.add(f.fq)
-    # ---- R6 (informational) ---------------------------------------------
-    cs = mc.methods['compile_string']
-    saved = [norm(n.targets[0]) for n in walk_no_nested(cs.node)
-             if isinstance(n, ast.Assign) and
-             norm(n.targets[0]).startswith('old')]
-    restored_in_handler = False
-    for n in walk_no_nested(cs.node):
-        if isinstance(n, ast.Try):
-            for h in n.handlers:
-                for x in ast.walk(h):
-                    if isinstance(x, ast.Assign) and any(
-                            s in norm(x.value) for s in saved):
-                        restored_in_handler = True
-    r6.sites = 1
-    r6.ob(True, 'compile_string:state',
-          {'saved': sorted(set(saved)),
-           'restored_on_exception_path': restored_in_handler})
-    r6.notes.append('compile_string saves parser.file/parser.mof and '
-                    'restores them only on success (restored on exception '
-                    'path: %s); harmless because every entry re-initialises '
-                    'both before parsing - reported as a note, not judged'
-                    % restored_in_handler)
+    # ---- R6: per-compile parser state ------------------------------------
+    # A parser attribute that a compile entry point switches away from its
+    # __init__ default is either re-assigned by *every* entry point before
+    # it starts parsing (so a stale value cannot survive a failed compile),
+    # or put back to the default in a `finally` that covers the parse calls.
+    init = mc.methods['__init__']
+    defaults = {}
+    for n in walk_no_nested(init.node):
+        if isinstance(n, ast.Assign) and len(n.targets) == 1 and \
+                norm(n.targets[0]).startswith('self.parser.'):
+            defaults[norm(n.targets[0])[12:]] = norm(n.value)
+
+    def parse_calls(stmts):
+        return [c for st in stmts for c in ast.walk(st)
+                if isinstance(c, ast.Call) and
+                dotted(c.func) == 'self.parser.parse']
+    entries = [f for f in mc.methods.values()
+               if f is not init and parse_calls(f.body)]
+    if len(entries) < 2:
+        raise AnalysisError('MOFCompiler: compile entry points calling '
+                            'self.parser.parse not found')
+    r6.functions.update(f.fq for f in entries)
+
+    def assigns(f):
+        out = {}
+        for n in walk_no_nested(f.node):
+            if isinstance(n, ast.Assign) and len(n.targets) == 1 and \
+                    norm(n.targets[0]).startswith('self.parser.'):
+                out.setdefault(norm(n.targets[0])[12:], []).append(n)
+        return out
+    per_entry = {f.name: assigns(f) for f in entries}
+    attrs = sorted({a for d in per_entry.values() for a in d})
+    for a in attrs:
+        r6.sites += 1
+        first_parse = {f.name: min(c.lineno for c in parse_calls(f.body))
+                       for f in entries}
+        reinit = all(any(n.lineno < first_parse[f.name]
+                         for n in per_entry[f.name].get(a, []))
+                     for f in entries)
+        if reinit:
+            r6.ob(True, 'parser.%s:re-initialised' % a,
+                  {'attr': a, 'how': 're-assigned by every entry point '
+                   'before parsing', 'entries': sorted(per_entry)})
+            continue
+        for f in entries:
+            for n in per_entry[f.name].get(a, []):
+                if a in defaults and norm(n.value) == defaults[a]:
+                    continue
+                # a non-default value: needs a covering finally
+                covered = False
+                for t in walk_no_nested(f.node):
+                    if not isinstance(t, ast.Try) or not t.finalbody:
+                        continue
+                    resets = [x for fb in t.finalbody for x in ast.walk(fb)
+                              if isinstance(x, ast.Assign) and
+                              norm(x.targets[0]) == 'self.parser.' + a and
+                              norm(x.value) == defaults.get(a)]
+                    body_calls = parse_calls(t.body)
+                    all_calls = parse_calls(f.body)
+                    inside = any(x is n for st in t.body
+                                 for x in ast.walk(st))
+                    if resets and len(body_calls) == len(all_calls) and \
+                            (inside or n.lineno < t.lineno):
+                        covered = True
+                r6.ob(covered, '%s:parser.%s' % (f.name, a),
+                      {'attr': a, 'entry': f.qualname, 'assign': norm(n),
+                       'default': defaults.get(a),
+                       'reset_in_finally': covered})
+                if not covered:
+                    rep.finding(
+                        r6, f.qualname, norm(n), 'stale-state', MOF,
+                        n.lineno,
+                        'parser.%s is switched to %s for this compile, is '
+                        'not re-assigned by every compile entry point, and '
+                        'is not reset to %s in a finally covering the parse: '
+                        'after a failed compile the same MOFCompiler keeps '
+                        'the stale value' % (a, norm(n.value),
+                                             defaults.get(a)))
